@@ -8,17 +8,17 @@ What the code does (openapi3/schema.go), branch by branch:
     (a present null is left alone) and whose schema has a non-null `default`, unless the property is one that must
     be absent (`reqRO` / `repWO`), a deep copy of the default is stored in the object (`inject`); the length checks,
     the visit of every member (the injected ones included) and `required` then see the enlarged object;
-  * `not` visits its child on the value ITSELF; `allOf` visits its members one after the other on the value itself
-    and stops at the first failing one; `oneOf` / `anyOf` visit every candidate on a deep copy and then run the
-    matched candidate (the only one / the first one) once more on the value itself;
+  * `allOf` visits its members one after the other on the value itself and stops at the first failing one; `not`,
+    `oneOf` and `anyOf` visit their child / every candidate on a deep copy; `oneOf` / `anyOf` then run the matched
+    candidate (the only one / the first one) once more on the value itself; nothing a `not` child does reaches the value;
   * an error holds a REFERENCE to the node it quotes: what the caller reads in `SchemaError.Value` is the node's
     content when validation returns. In this functional model every error of a node therefore quotes the node's
     final content (`q`), computed from what the visit did up to the point where it returned in mode `m`.
 
 Events after the point where mode `m` returns are "phantoms": they are generated (on the value a visitor that goes
 on would see) so that the tree has the shape of `events`, but `report m` never consumes them, and the value returned
-is the value at the point of return. The mode is an argument because of `not`: the child's mutations of the value
-itself persist, and how far a FAILING child got depends on the mode (finding F-C12-1, `DefaultUnderNot`).
+is the value at the point of return (how far a failing visit got depends on the mode). Until the repair of F-C12-1 the
+`not` child ran on the value itself, which made the VERDICT mode-dependent; `dfltUnderNot` names that former class.
 -/
 import KinModel.Schema.Events
 namespace KinModel.Schema
@@ -139,7 +139,6 @@ structure Subs where
   props : List (String × Out)
   addl : List (String × Out)
 
-def afterNot (rn : Option Out) (v : J) : J := match rn with | some o => o.2 | none => v
 def notOK (rn : Option Out) : Bool := match rn with | some o => !passesL o.1 | none => true
 def afterOne (c : List S) (kw : Kw) (ro : List Out) (v1 : J) : J :=
   if c.isEmpty || !(discCheck kw v1).pass then v1
@@ -156,7 +155,7 @@ def nodeD (m : Mode) (env : Env) (kw : Kw) (a b c : List S) (p : List (String ×
     (r : Subs) : Out :=
   if v.isNull && kw.permitsNull then ([], v) else
   if shortcut then ((if v.isNull then [.fail nullErr true] else []), v) else
-  let v1 := afterNot r.rn v
+  let v1 := v   -- `not` validates a deep copy under asreq / asrep (repair of F-C12-1): the value is as it was
   let v2 := afterOne c kw r.ro v1
   let v3 := afterAny b r.ra v2
   let v4 := seqFin r.rl v3
@@ -186,7 +185,7 @@ mutual
 def visitD (m : Mode) (env : Env) : S → J → Out
   | .mk kw a b c n i p ad, v =>
     let rn := notD m env n v
-    let v1 := afterNot rn v
+    let v1 := v
     let ro := selD m env (discCheck kw v1).ref c v1
     let v2 := afterOne c kw ro v1
     let ra := eachD m env b v2
@@ -226,7 +225,7 @@ def addlD (m : Mode) (env : Env) : Option S → List (String × J) → List (Str
   | some t, kvs => kvs.map (fun kx => (kx.1, visitD m env t kx.2))
 end
 
-/-! ### where the modes can part: a `default` that the injection loop can reach below a `not` (finding F-C12-1) -/
+/-! ### the former class of F-C12-1 (fixed): a `default` that the injection loop can reach below a `not` -/
 
 mutual
 /-- some object schema in the tree declares a property with a `default` (what the injection loop looks for) -/
@@ -245,8 +244,7 @@ def hasPropDfltP : List (String × S) → Bool
 end
 
 mutual
-/-- exclusion class of F-C12-1: a `not` whose child can inject defaults — into the value itself, and how many depends
-on how far the failing child got, i.e. on the mode -/
+/-- the class of the repaired F-C12-1: a `not` whose child can inject defaults (since the repair: into a copy only) -/
 def S.dfltUnderNot : S → Bool
   | .mk _ a b c n i p ad =>
     hasPropDfltO n || dfltUnderNotO n ||
